@@ -5,7 +5,7 @@
     entities under the labelling [lbl] of its field; [no_loss s s']: no label array present in [s] is missing in [s'].
     Definitions named [old_...] model FORMER code of pybrops (repaired since) and occur only in regression witnesses.
     [val] and [lbl] are arbitrary (so duplicated labels are covered), the entity type is arbitrary. *)
-From PV Require Import Lib.Common Model.C03_LMat Proofs.C03_LMat Gen.C03_Dispatch Gen.C03_MetaReset Proofs.C03_Tables Gen.C03_Kernel Proofs.C03_Kernel.
+From PV Require Import Lib.Common Model.C03_LMat Proofs.C03_LMat Gen.C03_Dispatch Gen.C03_MetaReset Proofs.C03_Tables Gen.C03_Kernel Proofs.C03_Kernel Proofs.C03_Session.
 Local Open Scope Z_scope.
 
 (** every class descriptor of the model is well formed (axes in range, kinds do not share array axes) *)
@@ -407,12 +407,48 @@ Theorem C03_kernel_square_extent : forall n0 n1 rest t k0 k1 vrest v,
 Proof. exact k_sq_extent_model. Qed.
 Print Assumptions C03_kernel_square_extent.
 
+(** group_<kind> of the source (generated unpacking of numpy.unique and stop-index expression) applied to an axis whose
+    group labels are sorted yields metadata that are a true contiguous partition of those labels *)
+Theorem C03_kernel_group_meta_partition : forall a g l, nth g (labs a) None = Some l -> Sorted.StronglySorted Z.le (unsome l) ->
+  grouped_ok (k_group_meta k_taxa_unique_unpack k_taxa_spix a g) g /\ grouped_ok (k_group_meta k_vrnt_unique_unpack k_vrnt_spix a g) g.
+Proof. exact kernel_group_meta_partition. Qed.
+Print Assumptions C03_kernel_group_meta_partition.
+
+(** sessions: running h1 ++ h2 is running h1 and then h2 from the class and state h1 reached - the outcome of every later
+    call is a function of the state at that call, never of how the state was obtained (no hidden history) ... *)
+Theorem C03_run_app : forall h1 c s h2,
+  run c s (h1 ++ h2) =
+  (if snd (run c s h1) then (fst (run c s h1), true)
+   else let cs := last_state c s (fst (run c s h1)) in
+        (fst (run c s h1) ++ fst (run (fst cs) (snd cs) h2), snd (run (fst cs) (snd cs) h2))).
+Proof. exact run_app. Qed.
+Print Assumptions C03_run_app.
+(** ... so two sessions that reach the same state continue identically *)
+Theorem C03_run_state_only : forall c1 s1 h1 c2 s2 h2 h,
+  snd (run c1 s1 h1) = false -> snd (run c2 s2 h2) = false ->
+  last_state c1 s1 (fst (run c1 s1 h1)) = last_state c2 s2 (fst (run c2 s2 h2)) ->
+  skipn (length (fst (run c1 s1 h1))) (fst (run c1 s1 (h1 ++ h))) = skipn (length (fst (run c2 s2 h2))) (fst (run c2 s2 (h2 ++ h)))
+  /\ snd (run c1 s1 (h1 ++ h)) = snd (run c2 s2 (h2 ++ h)).
+Proof. exact run_state_only. Qed.
+Print Assumptions C03_run_state_only.
+(** generic is_grouped(axis) answers what the axis-specific is_grouped_<kind> of the dispatched kind answers *)
+Theorem C03_is_grouped_generic : forall c s axis k, has_group c = true -> dispatch c (Generic axis) = Some k ->
+  is_grouped_gen c s axis =
+  match kind_of c k with KTaxa | KVrnt => Some (is_grouped (ax_of s k)) | KPhase => Some false | KTrait => None end.
+Proof. exact is_grouped_gen_specific. Qed.
+Print Assumptions C03_is_grouped_generic.
+
+Definition w0_s : st := mkst [2; 1]%nat (T2 [[1]; [2]]) [mkax [Some (L [3; 4]); Some (L [1; 1])] None None None None].
 (** non-vacuity of the kernel theorems' hypotheses: axis -1 of a 3-dimensional array is accepted and is index 2; a sorted
     group-label list with two groups *)
 Example C03_kernel_hyps_satisfiable :
   k_axis_bad (-1) 3 = false /\ k_axis_ix (-1) 3 = 2 /\ k_axis_bad 3 3 = true /\ k_axis_bad (-4) 3 = true /\
   Sorted.StronglySorted Z.le [1; 1; 2] /\ np_unique [1; 1; 2] = ([1; 2], [0; 2], [2; 1]) /\
-  map2 k_taxa_spix [0; 2] [2; 1] = [2; 3].
+  map2 k_taxa_spix [0; 2] [2; 1] = [2; 3] /\
+  (* two different sessions reaching the same state *)
+  snd (run cDenseTaxaMatrix w0_s [HOp (Specific 0) Ungroup]) = false /\
+  last_state cDenseTaxaMatrix w0_s (fst (run cDenseTaxaMatrix w0_s [HOp (Specific 0) Ungroup])) =
+  last_state cDenseTaxaMatrix w0_s (fst (run cDenseTaxaMatrix w0_s [HOp (Generic (-2)) Ungroup; HOp (Specific 0) Ungroup])).
 Proof. repeat split; repeat constructor; cbn; lia. Qed.
 
 (** non-vacuity: the hypotheses of the refinement theorems are met by a concrete labelled 2 x 3 taxa x variant matrix
